@@ -39,7 +39,10 @@ def strip_header(t4):
 
 def gen_deck(rng):
     m = rng.random()
-    if m < 0.08:
+    if m < 0.07:
+        # members of unions that become empty once identical surfaces are merged: the clean-up passes decide
+        return G.contradictory_union_deck(rng)
+    if m < 0.15:
         # surfaces referred to as seen from a cell with a TRCL (1000*cell+surface): generated, hence commented, surfaces
         from . import c04
         return c04.implicit_deck(rng)[0]
